@@ -29,6 +29,8 @@
   Only property theorems live here (named C06_float_*); helper lemmas are in Lemmas/C06Float.lean.
 -/
 import GilVerif.Lemmas.C06Float
+import GilVerif.Basic.FloatNearest
+import GilVerif.Model.C06
 
 namespace GilVerif.Props.C06Float
 open GilVerif GilVerif.FloatSpec GilVerif.Lemmas.C06Float
@@ -391,7 +393,59 @@ theorem C06_float_exact_instance :
     simp only [FloatSpec.exact, id]
     rw [ctrunc_of_nonneg (by norm_num), Int.floor_eq_iff]; norm_num
 
+/-- the exact-arithmetic instance of the abstract `double` path IS the exact reading `downNondivExact` of
+    Model/C06.lean (about which `C06_down_nondiv_exact_laws_partial` / `C06_roundtrip_nondiv_partial` speak) -/
+theorem C06_float_down_nondiv_exact_instance (B : ℚ) (hB : 1 ≤ B) (sm dm s : ℤ) (hd1 : 1 ≤ dm) (hle : dm ≤ sm) (hs0 : 0 ≤ s) :
+    downNondivF (FloatSpec.exact B hB) sm dm s = GilVerif.Model.C06.downNondivExact s sm dm := by
+  have floor_div : ∀ a b : ℤ, 0 < b → ⌊(a : ℚ) / b⌋ = a / b := by
+    intro a b hb
+    have hbq : (0 : ℚ) < b := by exact_mod_cast hb
+    rw [Int.floor_eq_iff]
+    constructor
+    · rw [le_div_iff₀ hbq]; exact_mod_cast Int.ediv_mul_le a (by omega)
+    · rw [div_lt_iff₀ hbq]; exact_mod_cast Int.lt_ediv_add_one_mul_self a hb
+  have hdq : (0 : ℚ) < dm := by exact_mod_cast (show (0 : ℤ) < dm by omega)
+  have hsq : (0 : ℚ) < sm := by exact_mod_cast (show (0 : ℤ) < sm by omega)
+  have hk : div2 (FloatSpec.exact B hB) sm dm = sm / (2 * dm) := by
+    simp only [div2, divD, FloatSpec.exact, id]
+    rw [ctrunc_of_nonneg (by positivity)]
+    have : (sm : ℚ) / dm / 2 = (sm : ℚ) / ((2 * dm : ℤ) : ℚ) := by push_cast; field_simp
+    rw [this]; exact floor_div sm (2 * dm) (by omega)
+  have hk0 : 0 ≤ sm / (2 * dm) := Int.ediv_nonneg (by omega) (by omega)
+  unfold downNondivF GilVerif.Model.C06.downNondivExact
+  rw [hk]
+  simp only [divD, FloatSpec.exact, id]
+  have hnum : (0 : ℚ) ≤ ((s + sm / (2 * dm) : ℤ) : ℚ) := by exact_mod_cast (show (0 : ℤ) ≤ s + sm / (2 * dm) by omega)
+  rw [ctrunc_of_nonneg (div_nonneg hnum (by positivity))]
+  have : ((s + sm / (2 * dm) : ℤ) : ℚ) / ((sm : ℚ) / dm) = (((s + sm / (2 * dm)) * dm : ℤ) : ℚ) / sm := by
+    push_cast; field_simp
+  rw [this]; exact floor_div _ sm (by omega)
+
+/-- the ROUNDED computation is not the exact reading: with the genuine binary64 rounding (`FloatSpec.binary64`,
+    kernel-evaluated) the 5-bit value 30 converts to the 4-bit value 14 -- as the compiled code does -- while the
+    exact reading gives 15.  Both are within one unit of 30*15/31 = 14.52; the theorems above cover the rounded one. -/
+theorem C06_float_down_nondiv_rounded_witness :
+    downNondivF FloatSpec.binary64 31 15 30 = 14 ∧ GilVerif.Model.C06.downNondivExact 30 31 15 = 15 := by
+  constructor
+  · unfold downNondivF div2 divD FloatSpec.binary64 FloatSpec.nearest; simp only []; decide +kernel
+  · decide
+
+/-- the genuine binary32 / binary64 roundings are instances: concrete conversions evaluated by the kernel
+    (0.5f → 128 of 255; 51 → 0.2f = 13421773 * 2^-26 → 51; 8-bit 200 → 5-bit 24) -/
+theorem C06_float_genuine_instance :
+    fromF FloatSpec.binary32 255 (1 / 2) = 128
+    ∧ toF FloatSpec.binary32 255 51 = 13421773 / 67108864
+    ∧ fromF FloatSpec.binary32 255 (toF FloatSpec.binary32 255 51) = 51
+    ∧ downNondivF FloatSpec.binary64 255 31 200 = 24 := by
+  refine ⟨?_, ?_, ?_, ?_⟩
+  · unfold fromF FloatSpec.binary32 FloatSpec.nearest; simp only []; decide +kernel
+  · unfold toF FloatSpec.binary32 FloatSpec.nearest; simp only []; decide +kernel
+  · unfold fromF toF FloatSpec.binary32 FloatSpec.nearest; simp only []; decide +kernel
+  · unfold downNondivF div2 divD FloatSpec.binary64 FloatSpec.nearest; simp only []; decide +kernel
+
 example : (FloatSpec.exact (2 ^ 53) (by norm_num)).IsBinary64 := FloatSpec.exact_isBinary64
+example : FloatSpec.binary64.IsBinary64 := FloatSpec.binary64_isBinary64
+example : FloatSpec.binary32.IsBinary32 := FloatSpec.binary32_isBinary32
 example : (1 : ℤ) ≤ 31 ∧ 2 * (31 : ℤ) ≤ 255 ∧ (255 : ℤ) < 2 ^ 32 ∧ (31 : ℤ) * 255 ≤ 2 ^ 53 := by decide
 
 end GilVerif.Props.C06Float
